@@ -33,9 +33,10 @@ def base_cfg(draw, limits="loose", multi_strategy=True, tx_limits=(5000,), custo
     for i in range(ns):
         s = gen.strategy_spec("S%d" % i, client=draw(st.integers(0, nc - 1)))
         if limits == "tight":
+            # (a limit of 0 is valid: nothing that adds risk may be sent)
             s["max_order_exposure"] = draw(st.sampled_from([None, 2, 5, 10, 25, 100]))
-            s["max_selection_exposure"] = draw(st.sampled_from([None, 2, 5, 10, 25, 100]))
-            s["max_market_exposure"] = draw(st.sampled_from([None, None, 5, 10, 25, 100]))
+            s["max_selection_exposure"] = draw(st.sampled_from([None, 0, 2, 5, 10, 25, 100]))
+            s["max_market_exposure"] = draw(st.sampled_from([None, None, 0, 5, 10, 25, 100]))
         elif limits == "some":
             s["max_order_exposure"] = draw(st.sampled_from([None, 10, 100]))
             s["max_selection_exposure"] = draw(st.sampled_from([None, 25, 100]))
